@@ -380,3 +380,32 @@ where
     packet.log_received(frames_collector);
     Ok(packet_content)
 }
+
+/// Conformance-harness access (add-only, compiled only under `--cfg gmquic_verif`): constructors of the
+/// otherwise private per-space ACK receivers, so that recorded traces exercise the real `recv_frame` bodies.
+#[cfg(gmquic_verif)]
+pub mod verif {
+    use super::*;
+
+    pub fn ack_receiver_initial(
+        journal: &Journal<CryptoFrame>,
+        crypto_stream: &CryptoStream,
+    ) -> impl ReceiveFrame<AckFrame, Output = ()> + Send + 'static {
+        AckInitialSpace::new(journal, crypto_stream)
+    }
+
+    pub fn ack_receiver_handshake(
+        journal: &Journal<CryptoFrame>,
+        crypto_stream: &CryptoStream,
+    ) -> impl ReceiveFrame<AckFrame, Output = ()> + Send + 'static {
+        AckHandshakeSpace::new(journal, crypto_stream)
+    }
+
+    pub fn ack_receiver_data(
+        journal: &Journal<GuaranteedFrame>,
+        data_streams: DataStreams,
+        crypto_stream: &CryptoStream,
+    ) -> impl ReceiveFrame<AckFrame, Output = ()> + Send + 'static {
+        AckDataSpace::new(journal, data_streams, crypto_stream)
+    }
+}
